@@ -1080,7 +1080,8 @@ SET_OF_encode_uper(const asn_TYPE_descriptor_t *td,
             const struct _el_buffer *el = &encoded_els[edx];
             if(asn_put_many_bits(po, el->buf,
                                  (8 * el->length) - el->bits_unused) < 0) {
-                break;
+                SET_OF__encode_sorted_free(encoded_els, list->count);
+                ASN__ENCODE_FAILED;
             }
         }
 
